@@ -9,8 +9,13 @@ pub mod c08;
 pub mod c09;
 pub mod c10;
 pub mod c11;
+pub mod c12;
 pub mod c13;
+pub mod c14;
+pub mod c15;
 pub mod c16;
+pub mod c17;
+pub mod c18;
 
 use crate::gen::Excl;
 use crate::report::{self, RunCtx};
@@ -25,6 +30,11 @@ pub fn run(ctx: &mut RunCtx) -> i32 {
         "C03" => c03::run(ctx),
         "C07" => c07::run(ctx),
         "C10" => c10::run(ctx),
+        "C17" => c17::run(ctx),
+        "C18" => c18::run(ctx),
+        "C15" => c15::run(ctx),
+        "C14" => c14::run(ctx),
+        "C12" => c12::run(ctx),
         "C16" => c16::run(ctx),
         "C05" => c05::run(ctx),
         "C11" => c11::run(ctx),
@@ -48,6 +58,11 @@ pub fn replay_fails(v: &Value) -> Option<(bool, String)> {
         "c04" => c04::replay_case(v),
         "c07" => c07::replay_case(v),
         "c10" => c10::replay_case(v),
+        "c17" => c17::replay_case(v),
+        "c18" => c18::replay_case(v),
+        "c15" => c15::replay_case(v),
+        "c14" => c14::replay_case(v),
+        "c12" => c12::replay_case(v),
         "c16" => c16::replay_case(v),
         "c05" => c05::replay_case(v),
         "c11" => c11::replay_case(v),
